@@ -26,7 +26,7 @@ func runC02(c *mon.Ctx) {
 	nb, na := base, base.Add(2*time.Hour)
 	certFor := func(name string, serial int64) *sim.Cert { return sim.Mint(sim.K(name), nb, na, serial) }
 	kinds := []string{"sso-resp", "sso-assert", "sso-bad-resp-over-good-assertions", "logout-req", "logout-resp"}
-	signers := []string{"member", "member", "member", "untrusted", "foreign-key", "same-key-other-cert", "no-keyinfo", "no-keyinfo", "twin-member", "mixed-validity-store", "renewed-same-key", "beside-unusable-member", "issued-by-store-ca"}
+	signers := []string{"member", "member", "member", "untrusted", "foreign-key", "same-key-other-cert", "no-keyinfo", "no-keyinfo", "twin-member", "mixed-validity-store", "renewed-same-key", "beside-unusable-member", "issued-by-store-ca", "named-not-carried"}
 	clocks := []struct {
 		name   string
 		t      time.Time
@@ -153,7 +153,7 @@ func runC02(c *mon.Ctx) {
 				signCert, alwaysInside = long, true
 			}
 			mixedNoKI = r.IntN(4) == 0
-		case "member", "no-keyinfo":
+		case "member", "no-keyinfo", "named-not-carried":
 			if storeSize == 0 || r.IntN(5) == 0 {
 				// the signer's certificate is not in the store
 				signCert = certFor("spsign2", 10) // a certificate the store does not hold
@@ -187,14 +187,14 @@ func runC02(c *mon.Ctx) {
 			}
 			signKey = signCert.Key
 		}
-		spec := randSigSpec(r, signCert, true, sg == "no-keyinfo" || mixedNoKI)
+		spec := randSigSpec(r, signCert, true, sg == "no-keyinfo" || sg == "named-not-carried" || mixedNoKI)
 		spec.Key = signKey
-		if spec.NoKeyInfo && r.IntN(2) == 0 {
-			spec.NameOnly = true // the certificate is named (key identifier, issuer and serial, subject) but not carried
+		if spec.NoKeyInfo && (r.IntN(2) == 0 || sg == "named-not-carried") {
+			spec.NameOnly, spec.NameForms = true, 1+r.IntN(15) // the certificate is named (key identifier, issuer and serial, subject) but not carried
 		}
 		spec.NSCharRef = r.IntN(4) == 0 // the XML-DSig namespace URI spelled with a character reference everywhere
 		honour := inStore && signKey == signCert.Key && (clk.inside || alwaysInside) && tamper == "none" && sg != "same-key-other-cert" && sg != "untrusted"
-		if sg == "no-keyinfo" || mixedNoKI {
+		if sg == "no-keyinfo" || sg == "named-not-carried" || mixedNoKI {
 			honour = honour && storeSize == 1
 		}
 		if sg == "foreign-key" {
